@@ -104,6 +104,13 @@ MUTANTS = [
     ("C19", "le-instead-of-lt", "typhon/retrieval/scores.py", "    abs_2 = (1.0 - taus) * np.abs(y_tau - y_test)", "    abs_2 = (1.0 - taus) * np.abs(y_tau - y_test) + (y_tau == y_test) * 1.0"),
     ("C19", "shape-error-swallowed", "typhon/retrieval/scores.py", "        raise ValueError(\n            \"Shape of y_test is incompatible with y_tau and taus.\")", "        y_test = y_test.ravel()[:n].reshape(n, 1)"),
     ("C19", "mean-over-wrong-axis", "typhon/retrieval/scores.py", "np.nanmean(quantile_score(y_tau, y_test, taus), axis=0)", "np.nanmean(quantile_score(y_tau, y_test, taus), axis=-1)"),
+    ("C14", "axis-ignored", "typhon/math/common.py", "    return trapezoid(y, x, axis=axis)", "    return trapezoid(y, x)"),
+    ("C14", "iwv-sign", "typhon/physics/atmosphere.py", "        return -math.integrate_column(q, p, axis=axis) / g", "        return math.integrate_column(q, p, axis=axis) / g"),
+    ("C14", "iwv-uses-vmr-not-q", "typhon/physics/atmosphere.py", "        return -math.integrate_column(q, p, axis=axis) / g", "        return -math.integrate_column(vmr, p, axis=axis) / g"),
+    ("C14", "iwv-general-axis-dropped", "typhon/physics/atmosphere.py", "        return math.integrate_column(vmr * rho, z, axis=axis)", "        return math.integrate_column(vmr / rho, z, axis=axis)"),
+    ("C14", "height-no-layer-mean", "typhon/physics/atmosphere.py", "    rho_layer = 0.5 * (rho[:-1] + rho[1:])", "    rho_layer = rho[:-1]"),
+    ("C14", "height-not-from-zero", "typhon/physics/atmosphere.py", "    return np.hstack([0, z])", "    return np.hstack([z[0], z])"),
+    ("C14", "crh-inverted", "typhon/physics/atmosphere.py", "        crh = ivw/ivws", "        crh = ivws/ivw"),
 ]
 
 
